@@ -553,16 +553,19 @@ def oracle_c06(case, res, guard=True):
         # summary vs the detail table of the same run (needs no hypothesis: both are cut at the to-date in the same way): every line is the
         # sum of the shown fractions with its key, every shown fraction is in a line
         shown = defaultdict(lambda: [F(0)] * 4)
+        mag = defaultdict(lambda: [F(0)] * 4)        # a decimal sum is accurate relative to the size of its terms, not of a result that may cancel
         for f in res["fractions"]:
             k = (ldate(rows[f["ev"]][2], rows[f["ev"]][3]).year, f["typ"], f["long"])
             a = shown[k]
-            shown[k] = [a[0] + F(f["amt"], U), a[1] + F(f["proceeds"]), a[2] + F(f["cost"]), a[3] + F(f["gain"])]
+            t = [F(f["amt"], U), F(f["proceeds"]), F(f["cost"]), F(f["gain"])]
+            shown[k] = [a[i] + t[i] for i in range(4)]
+            mag[k] = [mag[k][i] + abs(t[i]) for i in range(4)]
         got = {(y[0], y[1], y[2]): [F(x) for x in y[3:]] for y in res["yearly"]}
         if set(got) != set(shown):
             return f"yearly keys {sorted(got)} vs keys of the detail fractions of the same run {sorted(shown)}"
         for k in shown:
-            for a, b in zip(got[k], shown[k]):
-                if abs(a - b) > 100 * EPS * max(abs(a), abs(b), 1):
+            for a, b, m_ in zip(got[k], shown[k], mag[k]):
+                if abs(a - b) > 100 * EPS * max(m_, 1):
                     return f"yearly line {k}: {float(a)!r} vs sum of the detail fractions of the same run {float(b)!r}"
     if guard and not ldm_ok(case):
         return None
@@ -572,19 +575,22 @@ def oracle_c06(case, res, guard=True):
     full = run_impl(case, fd=MIN_DATE, td=MAX_DATE)     # every fraction, unfiltered
     if full["status"] != "ok":
         return None
+    mag2 = defaultdict(lambda: [F(0)] * 4)
     for f in full["fractions"]:
         dd = ldate(rows[f["ev"]][2], rows[f["ev"]][3])
         if dd.year >= fdy and (td is None or dd <= td):
             a = agg[(dd.year, f["typ"], f["long"])]
-            agg[(dd.year, f["typ"], f["long"])] = [a[0] + F(f["amt"], U), a[1] + F(f["proceeds"]), a[2] + F(f["cost"]), a[3] + F(f["gain"])]
+            t = [F(f["amt"], U), F(f["proceeds"]), F(f["cost"]), F(f["gain"])]
+            agg[(dd.year, f["typ"], f["long"])] = [a[i] + t[i] for i in range(4)]
+            mag2[(dd.year, f["typ"], f["long"])] = [mag2[(dd.year, f["typ"], f["long"])][i] + abs(t[i]) for i in range(4)]
     got = {(y[0], y[1], y[2]): [F(x) for x in y[3:]] for y in res["yearly"]}
     if len(got) != len(res["yearly"]):
         return "two yearly lines share (year, type, long/short)"
     if set(got) != set(agg):
         return f"yearly keys {sorted(got)} vs fractions' keys {sorted(agg)}"
     for k in agg:
-        for a, b in zip(got[k], agg[k]):
-            if abs(a - b) > 100 * EPS * max(abs(a), abs(b), 1):
+        for a, b, m_ in zip(got[k], agg[k], mag2[k]):
+            if abs(a - b) > 100 * EPS * max(m_, 1):
                 return f"yearly line {k}: {float(a)!r} vs sum of its fractions {float(b)!r}"
     return None
 
@@ -689,11 +695,22 @@ def oracle_c10(case, res, guard=True):
     return None
 
 
+def rows_constructible(case):
+    """every row of the history is accepted by its transaction constructor (a row the constructors reject is an input fault — C12 —
+    wherever it is dated, not a later transaction changing earlier results)"""
+    try:
+        cfg = Configuration(INI, country_of(case)[0], from_date=MIN_DATE, to_date=MAX_DATE, allow_negative_balances=case["neg"])
+        build_asset(cfg, "B1", case["rows"])
+        return True
+    except Exception:
+        return False
+
+
 def oracle_c09(case, res, guard=True):
     if res["status"].startswith("error") and case["to"] is not None and case["from"] is None and not (guard and not local_dates_monotone(case)):
         td_ = date.fromisoformat(case["to"])
         keep_ = [r for r in case["rows"] if ldate(r[2], r[3]) <= td_]
-        if any(r[0] == "IN" for r in keep_):
+        if any(r[0] == "IN" for r in keep_) and rows_constructible(case):
             tr_ = run_impl(case, fd=MIN_DATE, td=MAX_DATE, rows=keep_)
             if tr_["status"] == "ok":
                 return f"the whole history fails ({res['status']}: {res.get('_msg', '')[:70]}) although the history truncated at the to-date computes: later transactions changed earlier results"
